@@ -797,7 +797,7 @@ func r15e(c *core.Ctx) {
 	}
 	c.Check(retOK, "bucket-decision-returned", bucket.Pos(), cl, "ClientLimiter.AllowN returns the token bucket's decision", "")
 	// bucket construction uses the configured rate/burst
-	for _, fn := range cl.AnonFuncs {
+	for _, fn := range closuresOf(cl) {
 		for _, call := range core.CallsNamed(fn, "golang.org/x/time/rate.NewLimiter") {
 			var srcs []string
 			for _, a := range call.Common().Args {
